@@ -7,6 +7,7 @@ import BartiqModel.Aggregate
 import BartiqProofs.ExprLemmas
 import Mathlib.Data.List.Count
 import Mathlib.Data.List.Nodup
+import Mathlib.Data.List.Perm.Subperm
 import Mathlib.Tactic.Ring
 import Mathlib.Tactic.Tauto
 namespace Bartiq
@@ -402,6 +403,15 @@ theorem get?_map_pair (f : String → Nat) : ∀ (ns : List String) (s : String)
 
 /-- **`static_order()`**: whatever it returns lists nodes of the graph, each at most once, each after all its registered
     predecessors -/
+theorem staticOrder_length (g : G) (out : List String) (h : staticOrder g = some out) : out.length = (nodes g).length := by
+  unfold staticOrder at h
+  simp only at h
+  split at h
+  · rename_i hl
+    simp only [Option.some.injEq] at h
+    rw [← h]; exact hl
+  · cases h
+
 theorem staticOrder_spec (g : G) (out : List String) (h : staticOrder g = some out) :
     out.Nodup ∧ (∀ x ∈ out, x ∈ nodes g) ∧ respects g [] out = true := by
   unfold staticOrder at h
@@ -439,6 +449,11 @@ theorem mem_nodes (g : G) (x : String) (h : x ∈ nodes g) : ∃ kv ∈ g, x = k
   rcases mem_nodes_aux g [] x h with h | h
   · cases h
   · exact h
+
+/-- … and it lists ALL nodes: a permutation of the node list -/
+theorem staticOrder_perm (g : G) (out : List String) (h : staticOrder g = some out) : out.Perm (nodes g) := by
+  obtain ⟨h1, h2, _⟩ := staticOrder_spec g out h
+  exact (List.subperm_of_subset h1 h2).perm_of_length_le (by rw [staticOrder_length g out h])
 
 end Graph
 
